@@ -26,6 +26,8 @@ structure Doc where
   tagProp : Str
   tag : Option Str
   keys : List Str
+  /-- string values of the OTHER keys (a second tag property of the member: its const / first enum value / "x") -/
+  others : List (Str × Str) := []
   deriving DecidableEq, Repr
 
 def findEnum (fx : Facts) (ty : Str) : Option EnumF := fx.enums.find? (fun e => e.name = ty)
@@ -162,8 +164,11 @@ def permits (e : Env) (p t n : Str) : Bool :=
     | some pi => (match pi.const with | some c => c = t | none => true) && (pi.enumVals.isEmpty || pi.enumVals.contains t)
 
 def validDoc (e : Env) (p t n : Str) : Doc :=
-  let keys := match look n e.schemas with | some s => (e.merged s).props.map (·.1) | none => []
-  { tagProp := p, tag := some t, keys := if keys.contains p then keys else keys ++ [p] }
+  let props := match look n e.schemas with | some s => (e.merged s).props | none => []
+  let keys := props.map (·.1)
+  { tagProp := p, tag := some t, keys := if keys.contains p then keys else keys ++ [p],
+    others := (props.filter (fun x => x.1 ≠ p)).map (fun x =>
+      (x.1, match x.2.const with | some c => c | none => (match x.2.enumVals with | v :: _ => v | [] => "x".toList))) }
 
 def allTags (schemas : List (Str × Sch)) : List Str :=
   mkSet (schemas.flatMap (fun e =>
@@ -327,7 +332,8 @@ def shapeAccepts (fx : Facts) (shapes : List ShapeF) (d : Doc) (ty : Str) : Bool
        sh.req.all (fun k => d.keys.contains k) &&
        (match look d.tagProp sh.allowed, d.tag with
         | some vs, some t => vs.contains t
-        | _, _ => true))
+        | _, _ => true) &&
+       d.others.all (fun kv => match look kv.1 sh.allowed with | some vs => vs.contains kv.2 | none => true))
 
 /-- serde `untagged`: the variants are tried IN ORDER, the first one that decodes wins -/
 def firstAccepting (acc : Str → Bool) : List Str → Option Str
@@ -349,7 +355,7 @@ def siteDecode (fx : Facts) (shapes : List ShapeF) (fuel : Nat) (st : SiteTy) (d
     if e.untagged then
       (match firstAccepting (shapeAccepts fx shapes doc) e.types with | some t => .member t | none => .rejected)
     else
-      let tagv := if e.tag = doc.tagProp then doc.tag else none
+      let tagv := if e.tag = doc.tagProp then doc.tag else look e.tag doc.others
       let next := match tagv with | some t => look t e.arms | none => e.fallback
       match next with
       | none => .rejected
